@@ -271,18 +271,19 @@ theorem dispatch_shape {e : Editor D L} {ev : KeyEvent} {sh : Shared D L} {st : 
     (h : dispatch env e ev = .ok (sh, st)) :
     (sh.last ≠ .commit ∧ sh.commitBuf = []) ∨
     (sh.last = .commit ∧ e.state = .entering ∧ st = .entering ∧
-      ((e.shared.com.isEmpty = true ∧ sh.com = e.shared.com ∧ ∃ ch, sh.commitBuf = [ch]) ∨
+      ((e.shared.com.isEmpty = true ∧ sh.com = e.shared.com ∧ ∃ ch, DirectChar ev ch ∧ sh.commitBuf = [ch]) ∨
        (ev.code = KC.enter ∧ e.shared.com.isEmpty = false ∧ Shared.commit env (preamble e.shared) = .ok sh))) :=
   dispatch_shape_aux env h
 
 /-- **every key step, classified by how it commits.**  (N) not *commit*, commit buffer empty;
-    (S) *commit* of one character, pre-edit empty before and after; (W) *commit* of the whole pre-edit by
+    (S) *commit* of one character — the key's own, its full-width form, or a space (`DirectChar`) — pre-edit
+    empty before and after (English / full-width direct commit, symbols in Chinese mode); (W) *commit* of the whole pre-edit by
     Enter; (A) *commit* by overflow after the key itself was absorbed. -/
 theorem key_step_cases {e e' : Editor D L} {ev : KeyEvent} {b : KB} (h : e.processKey env ev = .ok (e', b)) :
     ∃ sh st, dispatch env e ev = .ok (sh, st) ∧ e'.state = st ∧
       ((b ≠ .commit ∧ sh.last = b ∧ sh.commitBuf = [] ∧ e'.shared = flush env sh) ∨
        (b = .commit ∧ e.state = .entering ∧ e.shared.com.isEmpty = true ∧ e'.shared.com = e.shared.com ∧
-          ∃ ch, e'.shared.commitBuf = [ch]) ∨
+          ∃ ch, DirectChar ev ch ∧ e'.shared.commitBuf = [ch]) ∨
        (b = .commit ∧ e.state = .entering ∧ ev.code = KC.enter ∧ e.shared.com.isEmpty = false ∧
           Shared.commit env (preamble e.shared) = .ok sh ∧ e'.shared = flush env sh) ∨
        (b = .commit ∧ st = .entering ∧ sh.last = .absorb ∧ sh.commitBuf = [] ∧
@@ -303,8 +304,8 @@ theorem key_step_cases {e e' : Editor D L} {ev : KeyEvent} {b : KB} (h : e.proce
     · rcases hcase with ⟨hsh, hb, _⟩ | ⟨_, h2, _⟩
       · rw [hc] at hb
         obtain ⟨f1, f2, _⟩ := flush_fields env sh
-        rcases hcase2 with ⟨he, hcom, ch, hch⟩ | ⟨hk, hne, hcm⟩
-        · exact Or.inr (Or.inl ⟨hb, hs, he, by rw [hsh, f2]; exact hcom, ch, by rw [hsh, f1]; exact hch⟩)
+        rcases hcase2 with ⟨he, hcom, ch, hq, hch⟩ | ⟨hk, hne, hcm⟩
+        · exact Or.inr (Or.inl ⟨hb, hs, he, by rw [hsh, f2]; exact hcom, ch, hq, by rw [hsh, f1]; exact hch⟩)
         · exact Or.inr (Or.inr (Or.inl ⟨hb, hs, hk, hne, hcm, hsh⟩))
       · rw [hc] at h2; cases h2
   | panic p => rw [hd] at h; cases h
@@ -326,7 +327,7 @@ theorem no_phantom_commit {e e' : Editor D L} {ev : KeyEvent} {b : KB}
 theorem commit_has_text (hH : ConvHeadText env) {e e' : Editor D L} {ev : KeyEvent}
     (h : e.processKey env ev = .ok (e', .commit)) : e'.shared.commitBuf ≠ [] := by
   obtain ⟨sh, st, _, _, hcase⟩ := key_step_cases env h
-  rcases hcase with ⟨c, _⟩ | ⟨_, _, _, _, ch, hch⟩ | ⟨_, _, _, hne, hcm, hsh⟩ | ⟨_, _, _, _, hlt, sh2, hac, hsh⟩
+  rcases hcase with ⟨c, _⟩ | ⟨_, _, _, _, ch, _, hch⟩ | ⟨_, _, _, hne, hcm, hsh⟩ | ⟨_, _, _, _, hlt, sh2, hac, hsh⟩
   · exact absurd rfl c
   · rw [hch]; simp
   · rw [hsh, (flush_fields env sh).1]
@@ -535,9 +536,9 @@ theorem emitted_was_displayed {e e' : Editor D L} {op : Op L} {m : Shared D L}
     (ha : e.apply env op = .ok e') (hm : editPart env e op = .ok m) :
     emitted e op e' = [] ∨ (direct e op m = true ∧ ∃ ch, emitted e op e' = [ch]) ∨
     ∃ rest, Shared.display env m = .ok (emitted e op e' ++ rest) := by
-  rcases step_shape env ha hm with ⟨_, h, _⟩ | ⟨hd, _, h⟩ | ⟨_, ivs, k, hc, _, _, hem, _⟩
+  rcases step_shape env ha hm with ⟨_, h, _⟩ | ⟨hd, _, ch, h, _⟩ | ⟨_, ivs, k, hc, _, _, hem, _⟩
   · exact Or.inl h
-  · exact Or.inr (Or.inl ⟨hd, h⟩)
+  · exact Or.inr (Or.inl ⟨hd, ch, h⟩)
   · refine Or.inr (Or.inr ⟨textOf (ivs.drop k), ?_⟩)
     unfold Shared.display
     rw [hc, hem]
@@ -792,6 +793,24 @@ example : ∃ e' outs acc, (rich0 39).runLog richEnv
        .setOptions { autoCommitThreshold := 1 }, .select 0, .commit] = .ok (e', outs, acc) ∧
       outs = [[], [], [], [], [], [], [65], [66]] ∧ acc = 2 ∧ e'.shared.com.symbols = [] := by
   refine ⟨_, _, _, rfl, ?_, ?_, ?_⟩ <;> decide
+
+/-- direct commit (shape S): English mode, empty pre-edit, key `x` commits exactly "x"; in full-width form
+    exactly its full-width form "ｘ" — in both cases a `DirectChar` of the key; ledger: 1 accepted, 1 emitted -/
+def kX : KeyEvent := { index := 40, code := 40, unicode := 120 }
+
+def engEditor (form : CharForm) : Editor ToyDict Nat :=
+  { shared := { syl := 0, dict := toyDict, options := { languageMode := .english, characterForm := form } } }
+
+example : ∃ e', (engEditor .half).processKey richEnv kX = .ok (e', .commit) ∧
+    e'.shared.commitBuf = [120] ∧ DirectChar kX 120 :=
+  ⟨_, rfl, by decide, Or.inl rfl⟩
+
+example : ∃ e', (engEditor .full).processKey richEnv kX = .ok (e', .commit) ∧
+    e'.shared.commitBuf = [65368] ∧ DirectChar kX 65368 :=
+  ⟨_, rfl, by decide, Or.inr (Or.inl (by decide))⟩
+
+example : ∃ e', (engEditor .half).runLog richEnv [.key kX, .key kX] = .ok (e', [[120], [120]], 1 + (1 + 0)) :=
+  ⟨_, rfl⟩
 
 /-- the hypothesis of `history_ledger` is satisfiable for every history of the toy environment -/
 example (e : Editor ToyDict Nat) (ops : List (Op Nat)) : TilesAlong richEnv e ops :=
